@@ -1,4 +1,5 @@
 mod abs;
+mod absworld;
 mod build;
 mod common;
 mod props;
@@ -65,6 +66,8 @@ fn main() {
     "c14" => props::c14::run(&cfg),
     "c17" => props::c17::run(&cfg),
     "c18" => props::c18::run(&cfg),
+    "c04" => props::c04::run(&cfg),
+    "c01" => props::c01::run(&cfg),
     _ => {
       eprintln!("unknown property {}", prop);
       std::process::exit(2);
